@@ -7,7 +7,7 @@
    parser vs `parse` evaluated in Coq on the real lexer's tokens). *)
 From Coq Require Import List ZArith Bool Arith.
 From YV Require Import Common.Corr Model.OpTable Model.Pratt Gen.OpTables.
-From YV Require Import Lemmas.PrattYield Lemmas.PrattWf Lemmas.PrattShape Lemmas.PrattUnique Lemmas.PrattUniqueFull Lemmas.OpTableInsert Lemmas.OpTableLevels Lemmas.PrattCall.
+From YV Require Import Lemmas.PrattYield Lemmas.PrattWf Lemmas.PrattShape Lemmas.PrattUnique Lemmas.PrattUniqueFull Lemmas.OpTableInsert Lemmas.OpTableLevels Lemmas.PrattCall Lemmas.OpTableKeyword Lemmas.PrattRanks.
 Import ListNotations.
 Open Scope Z_scope.
 
@@ -105,6 +105,30 @@ Proof.
   exact (fun B o q H => ex_intro _ (call_rank B) (conj eq_refl (conj (call_reduces_all B o q H) eq_refl))).
 Qed.
 
+(* parse depends on the table only through the ranks: tables that give every symbol the same
+   prefix, suffix and binary rank (and the same delegate-call rank) parse every token list
+   to the same tree *)
+Theorem C02_parse_depends_on_ranks : forall T T',
+  (forall o, pre T o = pre T' o) /\ (forall o, suf T o = suf T' o) /\
+  (forall o, bin T o = bin T' o) /\ callr T = callr T' ->
+  forall ts, parse T ts = parse T' ts.
+Proof. exact parse_ext. Qed.
+
+(* in particular ply token names and aliases decide nothing about the shape of the tree *)
+Theorem C02_parse_ignores_names_and_aliases : forall B ts,
+  parse (table_of B) ts = parse (table_of (strip_names B)) ts.
+Proof. exact (fun B => parse_ext _ _ (strip_names_same_ranks B)). Qed.
+
+(* the keyword-operator row (NAME_VALUE_PAIR; `=>` by default, absent with
+   keyword_operator=None, any symbol for a custom one) takes no part in precedence: without
+   it _build_operator_table yields the same rows, hence the same parser tables *)
+Theorem C02_keyword_operator_transparent : forall ops B,
+  build_table ops = Some B ->
+  build_table (drop_nv ops) = Some {| rows := rows B; nvop := None |} /\
+  table_of {| rows := rows B; nvop := None |} = table_of B /\
+  table_of_delegates {| rows := rows B; nvop := None |} = table_of_delegates B.
+Proof. exact keyword_row_transparent. Qed.
+
 (* insert_operator, read on the groups of the list (group k from 0 gets level k+1):
    with an anchor, the groups before the first group holding the anchor and that group
    itself are untouched; the new operator is appended to that group, or forms a new group
@@ -168,12 +192,14 @@ Theorem C02_no_level_dropped : forall ops B,
   build_table ops = Some B -> all_levels_visited B = true.
 Proof. exact (fun ops B R => groups_ok_all_levels_visited ops B (C02_reachable_contiguous ops R)). Qed.
 
-(* the live tables are the documented ones, and the model of _build_operator_table
+(* the live tables are the documented ones (keyword_operator=None just omits the `=>` row,
+   allow_delegates does not touch the list), and the model of _build_operator_table
    reproduces the live result (levels and aliases per symbol; ply token names are
    internal and ignored); every level of the live
    tables is visited by the precedence loop of parser.py *)
 Theorem C02_tables_pinned :
   default_ops = Spec.default_ops /\ legacy_ops = Spec.legacy_ops /\
+  nokw_ops = Spec.standard /\ drop_nv default_ops = nokw_ops /\ delegates_ops = default_ops /\
   option_map strip_names (build_table default_ops) = option_map strip_names default_built /\
   option_map strip_names (build_table legacy_ops) = option_map strip_names legacy_built /\
   default_built <> None /\ legacy_built <> None /\
@@ -181,6 +207,7 @@ Theorem C02_tables_pinned :
   option_map all_levels_visited legacy_built = Some true.
 Proof.
   split; [vm_compute; reflexivity|]. split; [vm_compute; reflexivity|].
+  split; [vm_compute; reflexivity|]. split; [vm_compute; reflexivity|]. split; [vm_compute; reflexivity|].
   split; [vm_compute; reflexivity|]. split; [vm_compute; reflexivity|].
   split; [discriminate|]. split; [discriminate|].
   split; vm_compute; reflexivity.
